@@ -18,7 +18,7 @@ META = {
     ),
     "anchors": ["abelian_core.AbelianArray.gen_valid_sectors", "symmetries.get_symmetry"],
     "floors": {
-        "quick": {"evaluations": 20000, "distinct_nontrivial": 1500, "tables": {"axioms": 10000, "sectors": 3000, "huge/candidates>65536*last": 8, "cross-symmetry/later-step-with-sectors": 2000}},
+        "quick": {"evaluations": 20000, "distinct_nontrivial": 1500, "tables": {"axioms": 10000, "sectors": 3000, "huge/candidates>65536*last": 8, "wide/candidates>16384": 20, "cross-symmetry/later-step-with-sectors": 2000}},
         "thorough": {"evaluations": 300000, "distinct_nontrivial": 30000, "tables": {"axioms": 100000, "sectors": 50000, "cross-symmetry/later-step-with-sectors": 40000}},
     },
     "exhaustive": {"quick": False, "thorough": True},
@@ -301,6 +301,73 @@ def huge_case(ctx, rng):
         ctx.nontrivial(("huge", sym, nleg, tuple(len(cs) for cs in css), tuple(duals)))
 
 
+def wide_case(ctx, rng):
+    """Few legs (3-4) that are each very wide - 11 to 45 charges, the bond indices of a
+    particle-number-conserving network - so that the candidate space exceeds 2^14 .. 2^16 tuples
+    at low rank; charge ranges not symmetric about zero, any dualness pattern, total charges
+    far from zero. Oracle: meet in the middle over signed partial sums, compared as sets."""
+    import itertools
+
+    sr = ctx.sr
+    from symv import gen
+
+    sym = rng.choice(["U1", "U1", "U1", "U1U1"])
+    nleg = rng.choice([3, 3, 4])
+    css = []
+    for _ in range(nleg):
+        if sym == "U1":
+            w = rng.randint(20, 45) if nleg == 3 else rng.randint(11, 16)
+            lo = rng.choice([0, 0, -w // 2, -rng.randint(0, w), rng.randint(1, 9)])
+            cs = list(range(lo, lo + w))
+            if rng.random() < 0.3:
+                cs = sorted(rng.sample(cs, max(2, w - rng.randint(1, 4))))  # gaps
+        else:
+            w1, w2 = (rng.randint(4, 7), rng.randint(4, 7)) if nleg == 3 else (rng.randint(3, 4), rng.randint(3, 4))
+            l1, l2 = rng.choice([0, -1, -w1 // 2]), rng.choice([0, -2, -w2 // 2])
+            cs = [(a, b) for a in range(l1, l1 + w1) for b in range(l2, l2 + w2)]
+        css.append(sorted(cs))
+    duals = [rng.random() < 0.5 for _ in range(nleg)]
+    ncand = 1
+    for cs in css:
+        ncand *= len(cs)
+    ctx.count("wide", "candidates>16384" if ncand > 16384 else "candidates-smaller")
+    if ncand > 65536:
+        ctx.count("wide", "candidates>65536")
+    charge = R.sector_charge(sym, [rng.choice(cs) for cs in css], duals)
+    h = nleg // 2
+    left = {}
+    for sec in itertools.product(*css[:h]):
+        left.setdefault(R.sector_charge(sym, sec, duals[:h]), []).append(sec)
+    expect = set()
+    for sec in itertools.product(*css[h:]):
+        need = R.comb(sym, [charge, R.neg(sym, R.sector_charge(sym, sec, duals[h:]))])
+        for l in left.get(need, ()):
+            expect.add(l + sec)
+    indices = [sr.BlockIndex({c: 1 for c in cs}, dual=d) for cs, d in zip(css, duals)]
+    cls, extra, kind = gen.pick_class(sr, rng, sym, False)
+    desc = {"symmetry": sym, "class": cls.__name__, "legs": nleg, "charge_ranges": [(repr(cs[0]), repr(cs[-1]), len(cs)) for cs in css], "duals": duals, "charge": repr(charge), "candidates": ncand}
+    via = rng.choice(["gen_valid_sectors", "gen_valid_sectors", "from_fill_fn"])
+    if via == "gen_valid_sectors":
+        o = ctx.call(lambda: list(cls(indices=indices, charge=charge, **extra).gen_valid_sectors()))
+    else:
+        o = ctx.call(lambda: list(cls.from_fill_fn(lambda shape: np.ones(shape), indices, charge=charge, **extra).blocks))
+    ctx.evaluated()
+    ctx.count("sectors", f"{sym}:{via}-wide")
+    if not o.ok:
+        ctx.violation(f"{via}-raises-{o.excname}", f"{desc}: {o.exc!r}", desc)
+        return
+    got = o.value
+    gs = set(got)
+    if len(gs) != len(got):
+        ctx.violation("sector-repeated", f"{via} {desc}: {len(got) - len(gs)} repeated sectors", desc)
+    elif gs - expect:
+        ctx.violation("sector-extra", f"{via} {desc}: {len(gs - expect)} extra sectors, e.g. {sorted(gs - expect, key=repr)[:2]}", desc)
+    elif expect - gs:
+        ctx.violation("sector-missing", f"{via} {desc}: {len(expect - gs)} of {len(expect)} sectors missing, e.g. {sorted(expect - gs, key=repr)[:2]}", desc)
+    else:
+        ctx.nontrivial(("wide", sym, tuple(len(cs) for cs in css), tuple(duals), repr(charge)))
+
+
 def lopsided_case(ctx, rng):
     """Legs of very different width: one leg with 8-14 charges beside legs with one or two."""
     import itertools
@@ -467,6 +534,8 @@ def run(ctx):
             ctx.run_case(check_sectors, ctx, sym, nd, css, duals, rng)
     for _, rng in ctx.cases("huge", ctx.budget(24, 300)):
         ctx.run_case(huge_case, ctx, rng)
+    for _, rng in ctx.cases("wide-legs", ctx.budget(60, 900)):
+        ctx.run_case(wide_case, ctx, rng)
     for _, rng in ctx.cases("lopsided", ctx.budget(4000, 80000)):
         ctx.run_case(lopsided_case, ctx, rng)
     for _, rng in ctx.cases("cross-symmetry", ctx.budget(6000, 120000)):
